@@ -2,7 +2,6 @@
 use crate::gen::*;
 use crate::props_coll::*;
 use rs_opw_kinematics::kinematic_traits::{Joints, Kinematics};
-#[allow(unused_imports)]
 use rs_opw_kinematics::rrt::RRTPlanner;
 use rs_opw_kinematics::verif_dual_rrt_connect;
 use std::cell::Cell;
@@ -73,6 +72,13 @@ pub fn c13_api(r: &mut Rng, n: usize) {
         }
         let mut tries = 0;
         while (k.kws.collides(&goal) || k.kws.collides(&q)) && tries < 30 { goal = rand_joints(r, 1.5); tries += 1; }
+        if i % 6 == 5 {
+            // a goal that satisfies the limits modulo a turn but lies outside the [from, to] box as a number
+            // (what inverse_continuing returns after normalising near a previous value)
+            let kk = r.below(6);
+            goal[kk] = t[kk] - r.range(0.02, 0.3) - 2.0 * PI;
+            k.fam.push_str("/goal-outside-box");
+        }
         if k.kws.collides(&goal) || k.kws.collides(&q) { continue; }
         let planner = RRTPlanner { step_size_joint_space: *r.pick(&[3f64.to_radians(), 0.1, 0.2]), max_try: *r.pick(&[50usize, 500, 2000]), debug: false };
         let cancel = i % 5 == 4;
@@ -110,4 +116,115 @@ pub fn c13(seed: u64, n: usize) {
     let mut r = Rng::new(seed ^ 0xC13);
     c13_hook(&mut r, n);
     c13_api(&mut r, (n / 4).max(8));
+}
+
+// ---------------------------------------------------------------- C12 Cartesian strokes
+use nalgebra::{Isometry3, Translation3, UnitQuaternion, Vector3};
+use rs_opw_kinematics::cartesian::{Cartesian, DEFAULT_TRANSITION_COSTS};
+use rs_opw_kinematics::collisions::CollisionBody;
+use rs_opw_kinematics::kinematic_traits::Pose;
+
+fn in_pool2<T: Send>(n: usize, f: impl FnOnce() -> T + Send) -> T {
+    rayon::ThreadPoolBuilder::new().num_threads(n).build().unwrap().install(f)
+}
+
+pub fn c12(seed: u64, n: usize) {
+    let mut r = Rng::new(seed ^ 0xC12);
+    // hook level: densification
+    for _ in 0..(n * 5).max(50) {
+        let land = rand_iso(&mut r, 1.0);
+        let ns = r.below(4);
+        let mut steps = vec![];
+        let mut cur = land;
+        for _ in 0..ns {
+            let d = Vector3::new(r.range(-0.2, 0.2), r.range(-0.2, 0.2), r.range(-0.2, 0.2));
+            let rot = UnitQuaternion::from_scaled_axis(Vector3::new(r.range(-0.3, 0.3), r.range(-0.3, 0.3), r.range(-0.3, 0.3)));
+            cur = Isometry3::from_parts(Translation3::from(cur.translation.vector + d), if r.chance(0.5) { cur.rotation } else { rot * cur.rotation });
+            steps.push(cur);
+        }
+        let park = Isometry3::from_parts(Translation3::from(cur.translation.vector + Vector3::new(0.0, 0.0, r.range(0.0, 0.1))), cur.rotation);
+        let q0 = rand_joints(&mut r, 1.0);
+        let k = gen_kws(&mut r, &q0, None);
+        let step_m = *r.pick(&[0.01, 0.02, 0.05, 0.5]);
+        let step_rad = *r.pick(&[1f64.to_radians(), 3f64.to_radians(), 0.5]);
+        let planner = Cartesian { robot: &k.kws, check_step_m: step_m, check_step_rad: step_rad, max_transition_cost: 0.1, transition_coefficients: DEFAULT_TRANSITION_COSTS,
+            linear_recursion_depth: 4, rrt: RRTPlanner { step_size_joint_space: 0.05, max_try: 10, debug: false }, include_linear_interpolation: true, debug: false };
+        let out = planner.verif_intermediate_poses(&land, &steps, &park);
+        let mut l = Line::new("C12", "hook/densify", "h_dense");
+        l.iso(&land).n(steps.len()); for s in &steps { l.iso(s); } l.iso(&park).f(step_m).f(step_rad).arrow();
+        l.n(out.len()); for (p, f) in &out { l.iso(p).n(*f as usize); }
+        l.emit();
+    }
+    // API level: plan
+    let mut done = 0; let mut tries = 0;
+    while done < n && tries < 20 * n {
+        tries += 1;
+        let q_land: Joints = [r.range(-1.0, 1.0), r.range(-0.3, 0.8), r.range(-0.6, 0.6), r.range(-0.5, 0.5), r.range(0.4, 1.2), r.range(-1.0, 1.0)];
+        let mut f = [0.0; 6]; let mut t = [0.0; 6];
+        for k in 0..6 { f[k] = -r.range(2.2, 3.0); t[k] = r.range(2.2, 3.0); }
+        let mut k = gen_kws(&mut r, &q_land, Some((f, t, 0.0)));
+        k.kws.body.collision_environment.clear();
+        let land: Pose = k.kws.forward(&q_land);
+        // stroke: a few steps along a random direction, park lifted
+        let dir = Vector3::new(r.range(-1.0, 1.0), r.range(-1.0, 1.0), r.range(-0.3, 0.3)).normalize();
+        let len = *r.pick(&[0.03, 0.08, 0.15, 0.25]);
+        let ns = 1 + r.below(3);
+        let steps: Vec<Pose> = (1..=ns).map(|i| Isometry3::from_parts(Translation3::from(land.translation.vector + dir * (len * i as f64 / ns as f64)), land.rotation)).collect();
+        let last = *steps.last().unwrap();
+        let park = Isometry3::from_parts(Translation3::from(last.translation.vector + Vector3::new(0.0, 0.0, 0.03)), last.rotation);
+        // obstacle layouts: free, grazing (next to the stroke), blocking (plate across the stroke)
+        let layout = done % 3;
+        let midp = land.translation.vector + dir * (len * 0.5);
+        let side = dir.cross(&Vector3::z()).normalize();
+        match layout {
+            1 => { let c = midp + side * r.range(0.25, 0.4);
+                   k.kws.body.collision_environment.push(CollisionBody { mesh: box_mesh([0.05, 0.05, 0.05], [0.0; 3], false), pose: Isometry3::translation(c.x as f32, c.y as f32, c.z as f32) }); }
+            2 => { let c = midp;
+                   let rotq = nalgebra::UnitQuaternion::rotation_between(&Vector3::y(), &dir).unwrap_or(nalgebra::UnitQuaternion::identity());
+                   k.kws.body.collision_environment.push(CollisionBody { mesh: box_mesh([0.3, 0.004, 0.3], [0.0; 3], false),
+                       pose: Isometry3::from_parts(Translation3::new(c.x, c.y, c.z), rotq).cast::<f32>() }); }
+            _ => {}
+        }
+        if k.kws.body.safety.mode == rs_opw_kinematics::collisions::CheckMode::NoCheck { k.kws.body.safety.mode = rs_opw_kinematics::collisions::CheckMode::FirstCollisionOnly; }
+        let mut from = q_land; for kk in 0..6 { from[kk] += r.range(-0.3, 0.3); }
+        if k.kws.collides(&from) { continue; }
+        done += 1;
+        let include = r.chance(0.6);
+        let planner = Cartesian { robot: &k.kws, check_step_m: *r.pick(&[0.01, 0.02, 0.05]), check_step_rad: 3f64.to_radians(),
+            max_transition_cost: *r.pick(&[3f64.to_radians(), 6f64.to_radians(), 0.3]), transition_coefficients: DEFAULT_TRANSITION_COSTS,
+            linear_recursion_depth: *r.pick(&[0usize, 2, 6, 8]), rrt: RRTPlanner { step_size_joint_space: 3f64.to_radians(), max_try: 500, debug: false },
+            include_linear_interpolation: include, debug: false };
+        let pools = [1usize, 2, 4, 16];
+        let pool = pools[done % 4];
+        let fam = format!("plan/{}/{}", ["free", "grazing", "blocking"][layout], if include { "with-interp" } else { "no-interp" });
+        let mut l = Line::new("C12", &fam, "plan");
+        k.ks.encode(&mut l);
+        l.j6(&from).iso(&land).n(steps.len()); for s in &steps { l.iso(s); } l.iso(&park);
+        l.f(planner.check_step_m).f(planner.check_step_rad).f(planner.max_transition_cost).j6(&planner.transition_coefficients).n(planner.linear_recursion_depth).b(include).n(pool);
+        l.arrow();
+        let res = catch(AssertUnwindSafe(|| in_pool2(pool, || planner.plan(&from, &land, steps.clone(), &park))));
+        match &res {
+            None => { l.s("panic"); }
+            Some(Err(_)) => { l.s("err"); }
+            Some(Ok(path)) => {
+                l.s("ok").n(path.len());
+                for w in path { l.j6(&w.joints).n(w.flags.bits() as usize).b(k.kws.collides(&w.joints)).b(k.kws.constraints().as_ref().unwrap().compliant(&w.joints)); }
+            }
+        }
+        l.emit();
+        // scheduling: the same problem under other pool sizes and repeated
+        if done % 2 == 0 {
+            let mut l = Line::new("C12", &fam, "plan_sched");
+            l.arrow();
+            let first_ok = matches!(res, Some(Ok(_)));
+            l.b(first_ok);
+            let mut outcomes = vec![];
+            for p in [1usize, 3, 16] {
+                let o = catch(AssertUnwindSafe(|| in_pool2(p, || planner.plan(&from, &land, steps.clone(), &park).is_ok())));
+                outcomes.push(o.unwrap_or(false));
+            }
+            l.n(outcomes.len()); for o in outcomes { l.b(o); }
+            l.emit();
+        }
+    }
 }
